@@ -532,6 +532,15 @@ class OraclesMixin:
             npr = len(pr)
             vis_cols = cols[: len(cols) - npr]
             if vis_cols != [n for n in vis_cols if m.tok_of_name(n)] or len(vis_cols) != len(m.visible):
+                if "O6" in self.fam and op == "join":
+                    self.violate(
+                        "C06",
+                        "O6.1",
+                        f"the join result reports the columns {m.names()} but its export on {rep} has {vis_cols}",
+                        how=step.get("how"),
+                        user_suffix=bool(step.get("suffix")),
+                        kind="export_names",
+                    )
                 raise Skip("export names vs model")
             toks = [m.tok_of_name(n) for n in vis_cols] + [self.ref_toks[r] for r in pr]
             if self.fam & {"O6", "O9", "O16", "O10", "O8"}:
